@@ -18,6 +18,8 @@ pub struct GenOpts {
     pub id_prefix: String,
     /// bias to tie-rich time grids / zero shunting
     pub ties: bool,
+    /// allow dead-head sentinels above the planning horizon (clamped by the loader)
+    pub sentinels: bool,
 }
 
 const BASE_DAY: i64 = 1_709_510_400; // 2024-03-04T00:00:00
@@ -184,12 +186,28 @@ pub fn gen_instance(rng: &mut Rng, o: &GenOpts) -> (Value, Value) {
             dd[j][i] = 0;
         }
     }
-    // the loader clamps durations above the planning horizon: stay well below one day
+    // the loader clamps durations above the planning horizon: stay well below one day ...
     for row in tt.iter_mut() {
         for x in row.iter_mut() {
             if *x > 36_000 {
                 *x = 36_000;
             }
+        }
+    }
+    // ... except for an occasional "no direct connection" sentinel, which the loader replaces by
+    // the planning duration (and a distance above 1000 km by 1000 km); REF mirrors both clamps
+    if o.sentinels && n_locs >= 2 && rng.chance(1, 3) {
+        let i = rng.usize(n_locs);
+        let mut j = rng.usize(n_locs);
+        if i == j {
+            j = (j + 1) % n_locs;
+        }
+        tt[i][j] = 100_000;
+        if rng.chance(1, 2) {
+            tt[j][i] = 100_000;
+        }
+        if rng.chance(1, 2) {
+            dd[i][j] = 5_000_000;
         }
     }
     let mut order: Vec<usize> = (0..n_locs).collect();
@@ -208,6 +226,8 @@ pub fn gen_instance(rng: &mut Rng, o: &GenOpts) -> (Value, Value) {
 
     // ---- routes ---------------------------------------------------------------------------
     let n_routes = rng.range(1, 4) as usize;
+    // route segment ids need to be unique only within their route
+    let route_local_segment_ids = rng.chance(1, 4);
     struct RSeg {
         id: String,
         dur: i64,
@@ -247,7 +267,7 @@ pub fn gen_instance(rng: &mut Rng, o: &GenOpts) -> (Value, Value) {
             } else {
                 None
             };
-            let id = format!("{}r{}s{}", pfx, r, s);
+            let id = if route_local_segment_ids { format!("{}seg{}", pfx, s) } else { format!("{}r{}s{}", pfx, r, s) };
             let mut m = Map::new();
             m.insert("id".into(), json!(id));
             m.insert("order".into(), json!(s));
